@@ -11,7 +11,7 @@ so the theorems proved about `Impl` (C02, C05, C06, C13, C16, C17, C01) are theo
 current Go source of these functions computes, whichever arguments share storage (C11 at this level).
 -/
 namespace EdVerif.FormulaSpec
-open EdVerif.Impl EdVerif.Prims
+open EdVerif.Impl EdVerif.Prims EdVerif.Gen
 
 -- field/fe.go (high layer)
 def field_Element_Negate (_v a : Fe) : Fe := Fe.neg a
@@ -63,11 +63,71 @@ def projLookupTable_FromP3 (_v : Array Cached) (q : P3) : Array Cached := Point.
 def affineLookupTable_FromP3 (_v : Array AffineCached) (q : P3) : Array AffineCached := Point.affineTable q
 def nafLookupTable5_FromP3 (_v : Array Cached) (q : P3) : Array Cached := Point.naf5Table q
 
+-- tables.go: constant-time table selection.  `x int8` is modelled by the integer it denotes; the `int8` operations
+-- are the wrapping operations of `EdVerif.Impl.I8`.  Written in the shape of the SSA; `projSelectI8_eq` /
+-- `affineSelectI8_eq` below relate them to the model's `Point.projSelect` / `Point.affineSelect` for `-128 ≤ x ≤ 127`.
+/-- `xabs := uint8((x + xmask) ^ xmask)` with `xmask := x >> 7` -/
+def selectAbs (x : Int) : Nat := I8.toU8 (I8.xor (I8.add x (I8.sar x 7)) (I8.sar x 7))
+/-- `int(xmask & 1)` -/
+def selectNeg (x : Int) : Nat := I8.toU 64 (I8.and (I8.sar x 7) 1)
+
+def projSelectI8 (t : Array Cached) (x : Int) : Cached :=
+  let xabs := selectAbs x
+  let dest := (List.range 8).foldl (fun dest j =>
+    Point.Cached.select t[j]! dest (Point.ctByteEq xabs (j + 1))) Point.Cached.zero
+  Point.Cached.condNeg dest (selectNeg x)
+
+def affineSelectI8 (t : Array AffineCached) (x : Int) : AffineCached :=
+  let xabs := selectAbs x
+  let dest := (List.range 8).foldl (fun dest j =>
+    Point.AffineCached.select t[j]! dest (Point.ctByteEq xabs (j + 1))) Point.AffineCached.zero
+  Point.AffineCached.condNeg dest (selectNeg x)
+
+def projLookupTable_SelectInto (v : Array Cached) (_dest : Cached) (x : Int) : Cached := projSelectI8 v x
+def affineLookupTable_SelectInto (v : Array AffineCached) (_dest : AffineCached) (x : Int) : AffineCached := affineSelectI8 v x
+
 -- scalarmult.go: the two constant-time scalar multiplications (64 unrolled iterations each).  The digit recoding
--- (`Scalar.radix16Digits`, total version of `Scalar.signedRadix16`) and the table selections are primitives of the
--- translation; `Point.scalarMult x q = .ok (Point.scalarMultDigits d q)` whenever `Scalar.signedRadix16 x = .ok d` by definition.
-def Point_ScalarMult (_v : P3) (x : W4) (q : P3) : P3 := Point.scalarMultDigits (Scalar.radix16Digits x) q
-def Point_ScalarBaseMult (_v : P3) (x : W4) : P3 := Point.scalarBaseMultDigits (Scalar.radix16Digits x)
+-- (`Scalar.radix16Digits`, total version of `Scalar.signedRadix16`) is a primitive of the translation; the table
+-- selections are the translated `SelectInto`s.  `scalarMultDigitsI8` / `scalarBaseMultDigitsI8` are the model's
+-- `Point.scalarMultDigits` / `Point.scalarBaseMultDigits` with the selections in SSA shape; they are equal to the model
+-- when the digits are `int8` values (`scalarMultDigitsI8_eq`, `scalarBaseMultDigitsI8_eq` below), and
+-- `Point.scalarMult x q = .ok (Point.scalarMultDigits d q)` whenever `Scalar.signedRadix16 x = .ok d` by definition.
+def scalarMultDigitsI8 (digits : Array Int) (q : P3) : P3 :=
+  let table := Point.projTable q
+  let multiple := projSelectI8 table digits[63]!
+  let v := Point.identity
+  let tmp1 := Point.P1xP1.add v multiple
+  let tmp1 := (List.range 63).foldl (fun tmp1 k =>
+    let i := 62 - k
+    let tmp1 := Point.mul16 tmp1
+    let v := Point.fromP1xP1 tmp1
+    let multiple := projSelectI8 table digits[i]!
+    Point.P1xP1.add v multiple) tmp1
+  Point.fromP1xP1 tmp1
+
+def scalarBaseMultDigitsI8 (digits : Array Int) : P3 :=
+  let bt := Point.basepointTable
+  let v := Point.identity
+  let v := (List.range 32).foldl (fun v k =>
+    let i := 2 * k + 1
+    let multiple := affineSelectI8 bt[i / 2]! digits[i]!
+    Point.fromP1xP1 (Point.P1xP1.addAffine v multiple)) v
+  let tmp2 := Point.P2.fromP3 v
+  let tmp1 := Point.P1xP1.double tmp2
+  let tmp2 := Point.P2.fromP1xP1 tmp1
+  let tmp1 := Point.P1xP1.double tmp2
+  let tmp2 := Point.P2.fromP1xP1 tmp1
+  let tmp1 := Point.P1xP1.double tmp2
+  let tmp2 := Point.P2.fromP1xP1 tmp1
+  let tmp1 := Point.P1xP1.double tmp2
+  let v := Point.fromP1xP1 tmp1
+  (List.range 32).foldl (fun v k =>
+    let i := 2 * k
+    let multiple := affineSelectI8 bt[i / 2]! digits[i]!
+    Point.fromP1xP1 (Point.P1xP1.addAffine v multiple)) v
+
+def Point_ScalarMult (_v : P3) (x : W4) (q : P3) : P3 := scalarMultDigitsI8 (Scalar.radix16Digits x) q
+def Point_ScalarBaseMult (_v : P3) (x : W4) : P3 := scalarBaseMultDigitsI8 (Scalar.radix16Digits x)
 
 -- addition chains (constant-trip loops, unrolled by the translator)
 def field_Element_Invert (_v z : Fe) : Fe := Fe.invert z
@@ -111,5 +171,393 @@ theorem Point_SetBytes_eq (v : P3) (x : Bytes) :
     by_cases hw : ((Fe.sqrtRatio (Fe.sub (Fe.square y) Point.feOne) (Fe.add (Fe.mul (Fe.square y) Point.d) Point.feOne)).2 == 0) = true
     · simp [hw]
     · simp [hw]
+
+/-! ## scalar.go: the layer above the fiat kernels
+
+The fiat kernels and `Scalar.Add/Subtract/Negate/Multiply/Equal` are primitives of T5 (they are translated by T1,
+`EdVerif.Gen.Fiat`); their first argument is the prior value of the location that receives the result.  The
+specifications below are written in the shape of the SSA (which location receives which result); the lemmas
+`…_eq` relate them to the model `Impl.Scalar`, which always passes `Scalar.rz` as prior value. -/
+
+def Scalar_Set (s x : W4) : W4 := Fiat.Set s x
+def NewScalar : W4 := Scalar.rz
+
+def Scalar_MultiplyAdd (s x y z : W4) : W4 :=
+  let zCopy := Fiat.Set Scalar.rz z
+  let s := Fiat.Multiply s x y
+  Fiat.Add s s zCopy
+
+def Scalar_bytes (s : W4) (out : Bytes) : Bytes :=
+  Fiat.fiatScalarToBytes out (Fiat.fiatScalarFromMontgomery Scalar.rz s)
+def Scalar_Bytes (s : W4) : Bytes := Scalar.bytes s
+
+/-- `setShortBytes` on its non-panicking path (`len(x) < 32`); T5 executes it in place at its three call sites, where
+the length of the argument is a constant -/
+def Scalar_setShortBytes_body (s : W4) (x : Bytes) : W4 :=
+  let buf := Scalar.copyInto 32 x
+  let s := Fiat.fiatScalarFromBytes s buf
+  Fiat.fiatScalarToMontgomery s s
+
+/-- `setShortBytes` translated on its own: it panics on an input of 32 bytes or more -/
+def Scalar_setShortBytes (s : W4) (x : Bytes) : Res W4 :=
+  if decide (x.size ≥ 32) then .panic "internal" else .ok (Scalar_setShortBytes_body s x)
+
+def Scalar_SetUniformBytes (s : W4) (x : Bytes) : Option W4 × W4 :=
+  if x.size != 64 then (none, s) else
+  let s := Scalar_setShortBytes_body s (Bin.slice x 0 21)
+  let t := Scalar_setShortBytes_body Scalar.rz (Bin.slice x 21 42)
+  let t := Fiat.Multiply t t Fiat.scalarTwo168
+  let s := Fiat.Add s s t
+  let t := Scalar_setShortBytes_body t (Bin.slice x 42 64)
+  let t := Fiat.Multiply t t Fiat.scalarTwo336
+  let s := Fiat.Add s s t
+  (some s, s)
+
+/-- the loop of `isReduced` from byte `i-1` downwards -/
+def isReducedFrom (s : Bytes) : Nat → Bool
+  | 0 => true
+  | i+1 =>
+    if decide (s[i]! > Fiat.scalarMinusOneBytes[i]!) then false
+    else if decide (s[i]! < Fiat.scalarMinusOneBytes[i]!) then true
+    else isReducedFrom s i
+
+def isReduced (s : Bytes) : Bool :=
+  if s.size != 32 then false else isReducedFrom s 32
+
+def Scalar_SetCanonicalBytes (s : W4) (x : Bytes) : Option W4 × W4 :=
+  if x.size != 32 then (none, s) else
+  if isReduced x then
+    let s := Fiat.fiatScalarFromBytes s x
+    let s := Fiat.fiatScalarToMontgomery s s
+    (some s, s)
+  else (none, s)
+
+def Scalar_SetBytesWithClamping (s : W4) (x : Bytes) : Option W4 × W4 :=
+  if x.size != 32 then (none, s) else
+  let wide := Scalar.copyInto 64 x
+  let wide := wide.set! 0 (wide[0]! &&& 248)
+  let wide := wide.set! 31 (wide[31]! &&& 63)
+  let wide := wide.set! 31 (wide[31]! ||| 64)
+  Scalar_SetUniformBytes s wide
+
+/-- `pow2k` (extra.go): `k` times `s.Multiply(s, s)`; T5 executes it in place at its call sites (constant `k`) -/
+def Scalar_pow2k : Nat → W4 → W4
+  | 0, s => s
+  | k+1, s => Scalar_pow2k k (Fiat.Multiply s s s)
+
+/-- `Scalar.Invert` (extra.go): sliding window of width 4 over `l - 2`; the table entries and `tt` are fresh (zero) locals -/
+def Scalar_Invert (_s t : W4) : W4 :=
+  let tt := Fiat.Multiply Scalar.rz t t
+  let t1 := t
+  let t3 := Fiat.Multiply Scalar.rz t1 tt
+  let t5 := Fiat.Multiply Scalar.rz t3 tt
+  let t7 := Fiat.Multiply Scalar.rz t5 tt
+  let t9 := Fiat.Multiply Scalar.rz t7 tt
+  let t11 := Fiat.Multiply Scalar.rz t9 tt
+  let t13 := Fiat.Multiply Scalar.rz t11 tt
+  let t15 := Fiat.Multiply Scalar.rz t13 tt
+  let step (s : W4) (k : Nat) (m : W4) : W4 := let s := Scalar_pow2k k s; Fiat.Multiply s s m
+  let s := t1
+  let s := step s (127 + 1) t1
+  let s := step s (4 + 1) t9
+  let s := step s (3 + 1) t11
+  let s := step s (3 + 1) t13
+  let s := step s (3 + 1) t15
+  let s := step s (4 + 1) t7
+  let s := step s (4 + 1) t15
+  let s := step s (3 + 1) t5
+  let s := step s (3 + 1) t1
+  let s := step s (4 + 1) t15
+  let s := step s (4 + 1) t15
+  let s := step s (4 + 1) t7
+  let s := step s (3 + 1) t3
+  let s := step s (4 + 1) t11
+  let s := step s (5 + 1) t11
+  let s := step s (9 + 1) t9
+  let s := step s (3 + 1) t3
+  let s := step s (4 + 1) t3
+  let s := step s (4 + 1) t3
+  let s := step s (4 + 1) t9
+  let s := step s (3 + 1) t7
+  let s := step s (3 + 1) t3
+  let s := step s (3 + 1) t13
+  let s := step s (3 + 1) t7
+  let s := step s (4 + 1) t9
+  let s := step s (3 + 1) t15
+  let s := step s (4 + 1) t11
+  s
+
+/-! `signedRadix16` (scalar.go).  `int8` values are modelled by the integers they denote, the `int8` operations are
+those of `EdVerif.Impl.I8`.  The two loops are written as list recursions (which unfold by `rfl`); `Scalar_signedRadix16_eq`
+below relates this to the model's `Scalar.signedRadix16` (array updates). -/
+
+/-- the unsigned radix-16 digits of bytes `i, i+1, …` (`n` bytes): `int8(b[i] & 15)`, `int8((b[i] >> 4) & 15)` -/
+def radix16Unsigned (b : Bytes) : Nat → Nat → List Int
+  | 0, _ => []
+  | n+1, i => I8.ofU8 (b[i]! &&& 15) :: I8.ofU8 ((b[i]! >>> 4) &&& 15) :: radix16Unsigned b n (i+1)
+
+/-- the recentering loop: `d` is the current value of `digits[i]` (its unsigned digit plus the carry of the previous
+step), the list holds the unsigned digits `i+1, …`; the last digit only receives the carry -/
+def radix16Recenter : Int → List Int → List Int
+  | d, [] => [d]
+  | d, u :: us =>
+    let carry := I8.sar (I8.add d 8) 4
+    I8.sub d (I8.shl carry 4) :: radix16Recenter (I8.add u carry) us
+
+def Scalar_signedRadix16 (s : W4) : Res (Array Int) :=
+  let b := Scalar.bytes s
+  if decide (b[31]! > 127) then .panic "highbit" else
+  match radix16Unsigned b 32 0 with
+  | [] => .ok #[]
+  | u :: us => .ok (radix16Recenter u us).toArray
+
+/-! ### the specifications above and the model `Impl.Scalar`
+
+Receiver independence of the fiat kernels used here is a definitional fact (the kernels overwrite every word of the
+result).  The lemmas are stated with `id rfl` so that `simp` uses them as ordinary rewrite rules with a proof term (as
+`rfl`-lemmas the kernel would have to re-check the rewritten goal by unfolding the kernels). -/
+
+theorem Multiply_recv (o x y : W4) : Fiat.Multiply o x y = Scalar.mul x y := id rfl
+theorem Add_recv (o x y : W4) : Fiat.Add o x y = Scalar.add x y := id rfl
+theorem fromBytes_recv (o : W4) (b : Bytes) : Fiat.fiatScalarFromBytes o b = Fiat.fiatScalarFromBytes Scalar.rz b := id rfl
+
+theorem Scalar_Set_eq (s x : W4) : Scalar_Set s x = x := rfl
+
+theorem Scalar_MultiplyAdd_eq (s x y z : W4) : Scalar_MultiplyAdd s x y z = Scalar.multiplyAdd x y z := by
+  unfold Scalar_MultiplyAdd Scalar.multiplyAdd
+  simp only [Multiply_recv, Add_recv]
+
+theorem Scalar_bytes_eq (s : W4) : Scalar_bytes s (Bin.zeros 32) = Scalar.bytes s := rfl
+
+/-- pair form of a fallible setter's outcome in the model -/
+def pairOfRes (r : Res W4) (s : W4) : Option W4 × W4 :=
+  match r with
+  | .ok v => (some v, v)
+  | _ => (none, s)
+
+theorem Scalar_setShortBytes_eq (s : W4) (x : Bytes) : Scalar_setShortBytes s x = Scalar.setShortBytes x := by
+  unfold Scalar_setShortBytes Scalar.setShortBytes Scalar_setShortBytes_body
+  by_cases h : x.size ≥ 32
+  · simp only [h, decide_true, if_true]
+  · simp only [h, decide_false, Bool.false_eq_true, if_false, fromBytes_recv s]
+
+theorem Scalar_setShortBytes_body_eq (s : W4) (x : Bytes) (h : x.size < 32) :
+    Scalar.setShortBytes x = .ok (Scalar_setShortBytes_body s x) := by
+  unfold Scalar.setShortBytes Scalar_setShortBytes_body
+  have : ¬ (x.size ≥ 32) := by omega
+  simp only [this, if_false, fromBytes_recv s]
+
+theorem slice_size (x : Bytes) (a b : Nat) : (Bin.slice x a b).size = min b x.size - a := by
+  simp [Bin.slice]
+
+theorem setUniformBytes_ok (x : Bytes) (h : x.size = 64) (s : W4) :
+    Scalar.setUniformBytes x = .ok (Scalar_SetUniformBytes s x).2 := by
+  unfold Scalar_SetUniformBytes Scalar.setUniformBytes
+  have h1 : (Bin.slice x 0 21).size < 32 := by rw [slice_size]; omega
+  have h2 : (Bin.slice x 21 42).size < 32 := by rw [slice_size]; omega
+  have h3 : (Bin.slice x 42 64).size < 32 := by rw [slice_size]; omega
+  have hne : (x.size != 64) = false := by simp [h]
+  simp only [hne, Bool.false_eq_true, if_false]
+  simp only [h]
+  rw [Scalar_setShortBytes_body_eq s _ h1, Scalar_setShortBytes_body_eq Scalar.rz _ h2]
+  rw [Scalar_setShortBytes_body_eq (Fiat.Multiply (Scalar_setShortBytes_body Scalar.rz (Bin.slice x 21 42)) (Scalar_setShortBytes_body Scalar.rz (Bin.slice x 21 42)) Fiat.scalarTwo168) _ h3]
+  simp only [Multiply_recv, Add_recv]
+
+theorem Scalar_SetUniformBytes_eq (s : W4) (x : Bytes) :
+    Scalar_SetUniformBytes s x = pairOfRes (Scalar.setUniformBytes x) s := by
+  by_cases h : x.size = 64
+  · rw [setUniformBytes_ok x h s]
+    unfold Scalar_SetUniformBytes pairOfRes
+    have hne : (x.size != 64) = false := by simp [h]
+    simp only [hne, Bool.false_eq_true, if_false]
+  · have hne : (x.size != 64) = true := by simp [h]
+    unfold Scalar_SetUniformBytes Scalar.setUniformBytes pairOfRes
+    simp only [hne, if_true]
+
+/-- `SetUniformBytes` never panics: the three `setShortBytes` calls get fewer than 32 bytes -/
+theorem setUniformBytes_no_panic (x : Bytes) (m : String) : Scalar.setUniformBytes x ≠ .panic m := by
+  by_cases h : x.size = 64
+  · rw [setUniformBytes_ok x h Scalar.rz]; intro hh; cases hh
+  · have hne : (x.size != 64) = true := by simp [h]
+    unfold Scalar.setUniformBytes
+    simp only [hne, if_true]; intro hh; cases hh
+
+theorem isReducedFrom_eq (s : Bytes) (n : Nat) : isReducedFrom s n = Scalar.isReduced.go s n := by
+  induction n with
+  | zero => rfl
+  | succ i ih =>
+    unfold isReducedFrom Scalar.isReduced.go
+    rw [ih]
+    by_cases h1 : s[i]! > Fiat.scalarMinusOneBytes[i]!
+    · simp only [h1, decide_true, if_true]
+    · by_cases h2 : s[i]! < Fiat.scalarMinusOneBytes[i]!
+      · simp only [h1, h2, decide_true, decide_false, if_true, Bool.false_eq_true, if_false]
+      · simp only [h1, h2, decide_false, Bool.false_eq_true, if_false]
+
+theorem isReduced_eq (s : Bytes) : isReduced s = Scalar.isReduced s := by
+  unfold isReduced Scalar.isReduced
+  rw [isReducedFrom_eq]
+
+theorem Scalar_SetCanonicalBytes_eq (s : W4) (x : Bytes) :
+    Scalar_SetCanonicalBytes s x = pairOfRes (Scalar.setCanonicalBytes x) s := by
+  unfold Scalar_SetCanonicalBytes Scalar.setCanonicalBytes
+  rw [isReduced_eq]
+  cases h : (x.size != 32)
+  · cases h2 : Scalar.isReduced x
+    · simp only [Bool.false_eq_true, if_false, Bool.not_false, if_true, pairOfRes]
+    · simp only [Bool.false_eq_true, if_false, Bool.not_true, if_true, pairOfRes, fromBytes_recv s]
+  · simp only [if_true, pairOfRes]
+
+theorem Scalar_SetBytesWithClamping_eq (s : W4) (x : Bytes) :
+    Scalar_SetBytesWithClamping s x = pairOfRes (Scalar.setBytesWithClamping x) s := by
+  unfold Scalar_SetBytesWithClamping Scalar.setBytesWithClamping
+  cases h : (x.size != 32)
+  · simp only [Bool.false_eq_true, if_false, Scalar_SetUniformBytes_eq]
+  · simp only [if_true, pairOfRes]
+
+theorem Scalar_pow2k_eq (k : Nat) (s : W4) : Scalar_pow2k k s = Scalar.pow2k k s := by
+  induction k generalizing s with
+  | zero => rfl
+  | succ k ih => unfold Scalar_pow2k Scalar.pow2k; rw [ih, Multiply_recv]
+
+
+theorem Scalar_Invert_eq (s t : W4) : Scalar_Invert s t = Scalar.invert t := by
+  unfold Scalar_Invert Scalar.invert
+  simp only [Scalar_pow2k_eq, Multiply_recv]
+
+/-! ### the table selections in SSA shape and the model's `Point.projSelect` / `Point.affineSelect` -/
+
+set_option maxRecDepth 100000 in
+/-- the scalar part of the selections, checked for each of the 256 `int8` values -/
+theorem select_scalars_fin : ∀ n : Fin 256,
+    selectAbs ((n.val : Int) - 128) = Point.xabsOf ((n.val : Int) - 128) ∧
+    selectNeg ((n.val : Int) - 128) = (Point.xmaskOf ((n.val : Int) - 128) &&& 1) := by
+  decide
+
+theorem select_scalars (x : Int) (h1 : -128 ≤ x) (h2 : x ≤ 127) :
+    selectAbs x = Point.xabsOf x ∧ selectNeg x = (Point.xmaskOf x &&& 1) := by
+  have hn : (x + 128).toNat < 256 := by omega
+  have hx : x = (((⟨(x + 128).toNat, hn⟩ : Fin 256).val : Int) - 128) := by
+    show x = (((x + 128).toNat : Nat) : Int) - 128
+    omega
+  rw [hx]
+  exact select_scalars_fin ⟨(x + 128).toNat, hn⟩
+
+theorem projSelectI8_eq (t : Array Cached) (x : Int) (h1 : -128 ≤ x) (h2 : x ≤ 127) :
+    projSelectI8 t x = Point.projSelect t x := by
+  unfold projSelectI8 Point.projSelect
+  rw [(select_scalars x h1 h2).1, (select_scalars x h1 h2).2]
+
+theorem affineSelectI8_eq (t : Array AffineCached) (x : Int) (h1 : -128 ≤ x) (h2 : x ≤ 127) :
+    affineSelectI8 t x = Point.affineSelect t x := by
+  unfold affineSelectI8 Point.affineSelect
+  rw [(select_scalars x h1 h2).1, (select_scalars x h1 h2).2]
+
+/-- digits that are `int8` values -/
+def DigitsI8 (digits : Array Int) : Prop := ∀ i : Nat, -128 ≤ digits[i]! ∧ digits[i]! ≤ 127
+
+theorem scalarMultDigitsI8_eq (digits : Array Int) (q : P3) (h : DigitsI8 digits) :
+    scalarMultDigitsI8 digits q = Point.scalarMultDigits digits q := by
+  unfold scalarMultDigitsI8 Point.scalarMultDigits
+  simp only [projSelectI8_eq _ _ (h _).1 (h _).2]
+
+theorem scalarBaseMultDigitsI8_eq (digits : Array Int) (h : DigitsI8 digits) :
+    scalarBaseMultDigitsI8 digits = Point.scalarBaseMultDigits digits := by
+  unfold scalarBaseMultDigitsI8 Point.scalarBaseMultDigits
+  simp only [affineSelectI8_eq _ _ (h _).1 (h _).2]
+
+/-! ### `signedRadix16` in SSA shape (list recursions) and the model's `Scalar.signedRadix16` (array updates) -/
+
+/-- one iteration of the model's recentering loop, with the `int8` operations of `I8` -/
+def radix16Step (d : Array Int) (i : Nat) : Array Int :=
+  let carry := I8.sar (I8.add d[i]! 8) 4
+  let d := d.set! i (I8.sub d[i]! (I8.shl carry 4))
+  d.set! (i+1) (I8.add d[i+1]! carry)
+
+theorem radix16Step_append (pre : List Int) (d u : Int) (us : List Int) :
+    radix16Step (pre ++ d :: u :: us).toArray pre.length =
+      ((pre ++ [I8.sub d (I8.shl (I8.sar (I8.add d 8) 4) 4)]) ++ I8.add u (I8.sar (I8.add d 8) 4) :: us).toArray := by
+  unfold radix16Step
+  simp
+
+
+theorem radix16_fold (us : List Int) : ∀ (pre : List Int) (d : Int),
+    (List.range' pre.length us.length).foldl radix16Step (pre ++ d :: us).toArray =
+      (pre ++ radix16Recenter d us).toArray := by
+  induction us with
+  | nil => intro pre d; rfl
+  | cons u us ih =>
+    intro pre d
+    have hl : (pre ++ [I8.sub d (I8.shl (I8.sar (I8.add d 8) 4) 4)]).length = pre.length + 1 := by simp
+    rw [List.length_cons, List.range'_succ, List.foldl_cons, radix16Step_append, ← hl, ih]
+    simp [radix16Recenter]
+
+/-- the model's step is `radix16Step` -/
+theorem radix16Step_model (d : Array Int) (i : Nat) :
+    (let carry := Scalar.wrap8 ((Scalar.wrap8 (d[i]! + 8)) / 16)
+     let d' := d.set! i (Scalar.wrap8 (d[i]! - Scalar.wrap8 (carry * 16)))
+     d'.set! (i+1) (Scalar.wrap8 (d'[i+1]! + carry))) = radix16Step d i := by
+  have hc : ∀ y : Int, Scalar.wrap8 (Scalar.wrap8 y / 16) = I8.sar (I8.wrap y) 4 := by
+    intro y
+    unfold Scalar.wrap8 I8.sar I8.wrap
+    show _ = ((y + 128) % 256 - 128) / 16
+    omega
+  unfold radix16Step
+  simp only [hc]
+  rfl
+
+
+theorem radix16Unsigned_length (b : Bytes) (n i : Nat) : (radix16Unsigned b n i).length = 2 * n := by
+  induction n generalizing i with
+  | zero => rfl
+  | succ n ih => simp only [radix16Unsigned, List.length_cons, ih]; omega
+
+theorem ofU8_and15 (x : Nat) : I8.ofU8 (x &&& 15) = ((x &&& 15 : Nat) : Int) := by
+  have h : x &&& 15 ≤ 15 := Nat.and_le_right
+  unfold I8.ofU8
+  rw [if_pos (by omega)]
+
+theorem foldl_congr_fun {α β : Type} (f g : α → β → α) (h : ∀ a b, f a b = g a b) (l : List β) (a : α) :
+    l.foldl f a = l.foldl g a := by
+  have : f = g := funext fun a => funext (h a)
+  rw [this]
+
+/-- the unsigned digits as the model computes them -/
+theorem radix16Unsigned_model (b : Bytes) :
+    ((List.range 64).toArray.map fun k =>
+      if k % 2 == 0 then ((b[k / 2]! &&& 15 : Nat) : Int) else (((b[k / 2]! >>> 4) &&& 15 : Nat) : Int)) =
+    (radix16Unsigned b 32 0).toArray := by
+  have hf : (fun k : Nat => if k % 2 == 0 then ((b[k / 2]! &&& 15 : Nat) : Int) else (((b[k / 2]! >>> 4) &&& 15 : Nat) : Int)) =
+      (fun k : Nat => if k % 2 == 0 then I8.ofU8 (b[k / 2]! &&& 15) else I8.ofU8 ((b[k / 2]! >>> 4) &&& 15)) := by
+    funext k
+    simp only [ofU8_and15]
+  rw [hf, List.map_toArray]
+  rfl
+
+theorem Scalar_signedRadix16_eq (s : W4) : Scalar_signedRadix16 s = Scalar.signedRadix16 s := by
+  unfold Scalar_signedRadix16 Scalar.signedRadix16
+  generalize Scalar.bytes s = b
+  by_cases h : b[31]! > 127
+  · simp only [h, decide_true, if_true]
+  · simp only [h, decide_false, Bool.false_eq_true, if_false]
+    rw [radix16Unsigned_model, foldl_congr_fun _ radix16Step (fun d i => radix16Step_model d i)]
+    have hl := radix16Unsigned_length b 32 0
+    generalize radix16Unsigned b 32 0 = U at hl ⊢
+    match U, hl with
+    | [], hl => simp at hl
+    | u :: us, hl =>
+      have hus : us.length = 63 := by simp only [List.length_cons] at hl; omega
+      have := radix16_fold us [] u
+      simp only [List.length_nil, List.nil_append, hus] at this
+      simp only [List.range_eq_range', this]
+
+/-- the digits primitive used by the regenerated scalar multiplications is what the regenerated `signedRadix16`
+returns whenever it does not panic -/
+theorem radix16Digits_of_ok (s : W4) (d : Array Int) (h : Scalar_signedRadix16 s = .ok d) :
+    Scalar.radix16Digits s = d := by
+  have h2 : Scalar.signedRadix16 s = .ok d := (Scalar_signedRadix16_eq s).symm.trans h
+  delta Scalar.radix16Digits
+  rw [h2]
+  rfl
 
 end EdVerif.FormulaSpec
